@@ -103,7 +103,8 @@ def cases(tier, seed, facet):
              "nw": 2, "cs": rng.choice((1, 6, -1)), "optimize": rng.random() < 0.5}
         if facet == "C04":
             d["nfail"] = rng.randint(1, 2)
-            d["exc"] = rng.choice(("ValueError", "KeyError", "Boom", "UnpicklableBoom", "Boom2"))
+            d["exc"] = rng.choice(("ValueError", "KeyError", "Boom", "UnpicklableBoom", "Boom2", "UnpicklableBoomVE",
+                                   "UnpicklableBoomRE", "UnpicklableBoomNI"))
         yield d
     if facet == "C04":
         # several failing process-scheduler calls from ONE parent process, raising different exception
@@ -456,7 +457,7 @@ def _check_failure_proc(model, obs, out, case):
         if not ok:
             msg = ("raised %s(%s); failing tasks that ran: %r"
                    % (type(obs.exc).__name__, str(obs.exc)[:160], [(i, model.prog.nodes[i].fail) for i in sorted(raised)]))
-            unpick = raised and all(model.prog.nodes[i].fail == "UnpicklableBoom" for i in raised)
+            unpick = raised and all(model.prog.nodes[i].fail.startswith("UnpicklableBoom") for i in raised)
             if unpick and "pickle" in str(obs.exc).lower():
                 # mechanism label independent of graph form / batch size: the exception object could not be
                 # shipped to the parent and the pickling error is raised in its place
